@@ -221,6 +221,8 @@ def origin_vals(b, operand, extra=()):
             return
         seen.add(key)
         ds = [d for d in b.defs.get(l, []) if d[1] == 'call' or not d[2]['lhs']['p']]
+        if _LIVE[0] is not None and len(ds) > 1:
+            ds = [d for d in ds if d[0] in _LIVE[0]] or ds
         if not ds or (1 <= l <= b.arg_count and len(ds) == 0):
             v = b.local_val(l)
             for e in projs:
@@ -268,3 +270,12 @@ def origin_vals(b, operand, extra=()):
     pl = operand['place']
     go(pl['l'], [e for e in pl['p'] if e != 'deref'] + list(extra), 0)
     return out
+
+
+def origin_vals_under(b, operand, live, extra=()):
+    """origin_vals() with definitions restricted to the blocks in `live`"""
+    _LIVE[0] = live
+    try:
+        return origin_vals(b, operand, extra)
+    finally:
+        _LIVE[0] = None
